@@ -38,6 +38,8 @@ class LoopAdapter:
         env.forced = False
         env.frame_dt = None
         env.switches = 0
+        env.quit_on_in = False
+        env.err_on_quit = False
 
         def tag(w):
             if w is None:
@@ -61,6 +63,14 @@ class LoopAdapter:
             elif kind == 'quit':
                 raise d.Quit()
             elif kind == 'quit_loop':
+                d.quit_loop()
+            elif kind == 'switchq':
+                env.quit_on_in = True
+                d.switch(env.handles[h], False, False)
+            elif kind == 'direct':
+                d.default_loop.switch(env.handles[h])
+            elif kind == 'qlerr':
+                env.err_on_quit = True
                 d.quit_loop()
             elif kind == 'clrquit':
                 d.default_loop.current_world_handle.clear()
@@ -107,12 +117,18 @@ class LoopAdapter:
 
             def on_switch_in(self, a, b):
                 env.log.append(('ev', tag(self.w), 'on_switch_in', tag(a), tag(b)))
+                if env.quit_on_in:
+                    env.quit_on_in = False
+                    raise d.Quit()
 
             def on_switch_out(self, a, b):
                 env.log.append(('ev', tag(self.w), 'on_switch_out', tag(a), tag(b)))
 
             def on_quit(self):
                 env.log.append(('ev', tag(self.w), 'on_quit', 0, 0))
+                if env.err_on_quit:
+                    env.err_on_quit = False
+                    raise RuntimeError('planned: on_quit handler fails')
 
             def poke(self, a, b):
                 env.log.append(('ev', tag(self.w), 'poke', 0, 0))
@@ -173,7 +189,7 @@ class LoopAdapter:
                     while j < len(plan) and plan[j][0] == 'frame':
                         frames.append(plan[j][1:])
                         j += 1
-                        if frames[-1][2][0] in ('quit', 'quit_loop', 'clrquit', 'error'):
+                        if frames[-1][2][0] in ('quit', 'quit_loop', 'clrquit', 'error', 'qlerr', 'switchq'):
                             break
                     env.frames = frames
                     env.fi = -1
